@@ -676,6 +676,15 @@ class SObj(Sym):
             return NotImplemented
         return sch["__mul__"](self)(o)
 
+    def __getitem__(self, i):
+        sch = OBJ_SCHEMAS.get(self.cls) or {}
+        if "__getitem__" not in sch:
+            raise Unsupported(f"indexing an opaque object of class {self.cls!r}")
+        return sch["__getitem__"](self)(i)
+
+    def __iter__(self):
+        raise Unsupported(f"iteration over an opaque object of class {self.cls!r}")
+
     def __call__(self, *a, **k):
         sch = OBJ_SCHEMAS.get(self.cls) or {}
         if "__call__" not in sch:
